@@ -293,11 +293,16 @@ func cmdC07(args []string) {
 					case "open":
 						emit(l, w.Exec(l)) // the file works again: retry
 					case "revert":
-						// the store must be re-opened after a failed FlushRevert
+						// the store must be re-opened after a failed FlushRevert; a SNAPSHOT whose
+						// revert failed is only dropped (opening it again would put a second
+						// writable store on a file whose original is still open)
+						wasSnap := w.ro[atoi(f[1])]
 						dl := "drop " + f[1]
 						emit(dl, w.Exec(dl))
-						ol := fmt.Sprintf("open %s %d", f[1], pt.fid)
-						emit(ol, w.Exec(ol))
+						if !wasSnap {
+							ol := fmt.Sprintf("open %s %d", f[1], pt.fid)
+							emit(ol, w.Exec(ol))
+						}
 					case "copy":
 						rl := "rmfile " + f[3] // whatever a failed CopyTo left in its destination is discarded
 						emit(rl, w.Exec(rl))
